@@ -126,6 +126,26 @@ mut("C06-meta-dropped", ABS, "            if msg.message_type is not MessageType
     "            if msg.message_type is not MessageType.NOTE_ON and msg.message_type is not MessageType.NOTE_OFF and msg.message_type is not MessageType.PROGRAM_CHANGE:\n                quantised_messages.append(msg)", ["C06"])
 mut("C06-no-invalidate", SEQ, "        self.abs.quantise_note_lengths(note_values, standard_length=standard_length, do_not_extend=do_not_extend)\n        self.invalidate_rel()", "        self.abs.quantise_note_lengths(note_values, standard_length=standard_length, do_not_extend=do_not_extend)", ["C06", "C04"])
 
+# C08
+mut("C08-carry-off-by-one", REL, "carry_time = msg.time - remaining_capacity", "carry_time = msg.time - remaining_capacity + (1 if remaining_capacity == 3 else 0)", ["C08"])
+mut("C08-restrike-default-velocity", REL, "                                Message(message_type=MessageType.NOTE_ON, channel=value.channel, note=value.note,\n                                        velocity=value.velocity))",
+    "                                Message(message_type=MessageType.NOTE_ON, channel=value.channel, note=value.note,\n                                        velocity=127))", ["C08"])
+mut("C08-cut-note-off-omitted", REL, "                            current_sequence.add_message(\n                                Message(message_type=MessageType.NOTE_OFF, channel=value.channel, note=value.note))\n",
+    "", ["C08"])
+mut("C08-remainder-dropped", REL, "        if len(working_memory) > 0:\n            current_sequence._messages.extend([msg for msg in working_memory])", "        if len(working_memory) > 1:\n            current_sequence._messages.extend([msg for msg in working_memory])", ["C08"])
+mut("C08-meta-at-boundary-dropped", REL, "                    if remaining_capacity > 0:\n                        current_sequence.add_message(msg)\n                    else:\n                        next_sequence_queue.append(msg)\n\n        # Check if still capacity left",
+    "                    if remaining_capacity > 0:\n                        current_sequence.add_message(msg)\n\n        # Check if still capacity left", ["C08"])
+mut("C08-open-notes-not-cleared", REL, "                    open_messages.pop((msg.channel, msg.note), None)", "                    pass", ["C08"])
+mut("R16b-split-pop-pitch-only", REL, "open_messages.pop((msg.channel, msg.note), None)", "open_messages.pop(msg.note, None)", ["C08"])
+
+# C15
+mut("C15-normalise-skipped", SEQ, "        self.abs.merge([seq.abs for seq in sequences])\n        self.invalidate_rel()\n        self.normalise()", "        self.abs.merge([seq.abs for seq in sequences])\n        self.invalidate_rel()", ["C15"])
+mut("C15-sort-without-type", ABS, "self._messages.sort(key=lambda x: (x.time, -1 if x.channel is None else x.channel, x.message_type, x.note))", "self._messages.sort(key=lambda x: (x.time, -1 if x.channel is None else x.channel))", ["C15"])
+mut("C15-internal-dropped", ABS, "            for msg in [msg for msg in sequence._messages]:\n                self._add_message_unsorted(msg)", "            for msg in [msg for msg in sequence._messages if msg.message_type != MessageType.INTERNAL]:\n                self._add_message_unsorted(msg)", ["C15"])
+mut("C15-last-sequence-skipped", ABS, "        for sequence in sequences:\n            for msg in [msg for msg in sequence._messages]:", "        for sequence in sequences[:3]:\n            for msg in [msg for msg in sequence._messages]:", ["C15"])
+mut("C15-ts-compare-numerator-only", REL, "if msg.numerator != current_ts_numerator or msg.denominator != current_ts_denominator:", "if msg.numerator != current_ts_numerator:", ["C15"])
+mut("C15-abs-wait-channel-break", ABS, "            if time > current_point_in_time:", "            if time > current_point_in_time + 1:", ["C15", "C04"])
+
 
 def run(cmd, env):
     p = subprocess.run(cmd, cwd=ROOT, env=env, capture_output=True, text=True)
